@@ -63,6 +63,7 @@ pub struct PState {
     pub nops: usize,
 }
 
+#[derive(Clone, Debug, Serialize, Deserialize)]
 pub struct PayModel {
     pub max_ops: usize,
     pub contents: Vec<PC>,
@@ -181,6 +182,10 @@ fn op_kind(op: &Op) -> &'static str {
 impl Model for PayModel {
     type Op = Op;
     type State = PState;
+
+    fn cfg_json(&self) -> serde_json::Value {
+        serde_json::to_value(self).unwrap()
+    }
 
     fn name(&self) -> String {
         format!("payflow(ops<={},contents={:?},k={}{}{}{})", self.max_ops, self.contents, self.k, if self.strict { ",enforce_balance" } else { "" }, if self.monitors { ",monitors" } else { "" }, if self.holder_letters { "" } else { ",cp-side-only" })
@@ -401,4 +406,10 @@ pub fn explore(tier: Tier, monitors: bool, wall_s: f64) -> PayRun {
         merge_stats(&mut stats, &st);
     }
     PayRun { stats, found, models }
+}
+
+pub fn replay_ops(v: &serde_json::Value) -> Vec<Vio> {
+    let m: PayModel = serde_json::from_value(v["cfg"].clone()).expect("payflow cfg");
+    let ops: Vec<Op> = serde_json::from_value(v["ops"].clone()).expect("payflow ops");
+    crate::vmc::replay(&m, &ops)
 }
